@@ -109,8 +109,10 @@ ASSUMPTIONS = [
     'bins is a power of two with dyadic range, or odd with a power-of-two span, so that '
     'values (dyadic grid) meet an edge only where the edge is exact; no NaNs',
     'R2Tjur: y_true in {0, 1}, predictions on i/64 in [0, 1]; SymmetricPredictionDifference: '
-    'values on the grid i/8, |x| <= 8; a term with x + y == 0 contributes 0 to the symmetric '
-    'prediction difference (unit-test convention)',
+    'values on the grid i/8, |x| <= 8, in 40% of the cases scaled exactly by 2**k, k in '
+    '{-60 .. 40} (other units: the metric is a ratio; 2**-30 ~ 1e-9); a term with x + y == 0 '
+    'contributes 0 to the symmetric prediction difference (unit-test convention); the '
+    'math_utils operands are scaled the same way (0 is the only zero denominator)',
     'RRegression: (a) grid i/8, |x| <= 8, constant columns allowed (NaN); (b) features / '
     'target with a common offset 1e6-1e8 (either sign) and spread 0.5-100, integer-valued '
     'half of the time, every column has spread >= 0.25 (no constant column: 0 / 0 is not '
@@ -148,6 +150,7 @@ REQUIRED = [
     'stats_counter_cases', 'stats_calibration_cases', 'stats_value_checks',
     'stats_function_api_checks', 'misc_r2tjur_cases', 'misc_r2tjur_rel_cases',
     'misc_rreg_cases', 'misc_spd_cases', 'misc_text_cases', 'misc_mathutils_cases',
+    'misc_scaled_magnitude_cases',
     'misc_signal_cases', 'misc_value_checks', 'retr_multibatch_checks',
     'thr_multibatch_checks', 'stats_accumulator_checks', 'misc_accumulator_checks',
     # input classes that must have been generated (see RULE)
